@@ -180,7 +180,13 @@ func (dw *DiskWriter) HandleChange(kind ChangeKind, p string, fi os.FileInfo, er
 			return errors.Wrapf(err, "failed to symlink %s", newPath)
 		}
 	case statCopy.Linkname != "":
-		if err := os.Link(filepath.Join(dw.dest, statCopy.Linkname), newPath); err != nil {
+		linkSrc := filepath.Join(dw.dest, statCopy.Linkname)
+		// the link source must be a file written by this transfer; a symlink found there (left over in
+		// the destination) would be linked as such and then followed when the metadata is applied
+		if lfi, err := os.Lstat(linkSrc); err == nil && lfi.Mode()&os.ModeSymlink != 0 {
+			return errors.Errorf("invalid hardlink %s to symlink %s", p, statCopy.Linkname)
+		}
+		if err := os.Link(linkSrc, newPath); err != nil {
 			return errors.Wrapf(err, "failed to link %s to %s", newPath, statCopy.Linkname)
 		}
 	default:
